@@ -1435,7 +1435,7 @@ func rawFile(r *hx.Run, rnd *hx.Rand, p *pool, items []string) {
 	var file bytes.Buffer
 	enc := json.NewEncoder(&file)
 	enc.SetEscapeHTML(false)
-	for _, it := range items {
+	for idx, it := range items {
 		f := strings.Split(it, "/")
 		ref, _ := strconv.ParseUint(f[0], 10, 64)
 		ub, _ := hx.Unhex(f[1])
@@ -1462,9 +1462,14 @@ func rawFile(r *hx.Run, rnd *hx.Rand, p *pool, items []string) {
 				d["Enrichment"] = 17
 			}
 		case 'g':
-			if ref%2 == 0 {
+			switch {
+			case idx == len(items)-1 && ref%3 == 0:
+				// the file ends inside a line (a copy that was cut short)
+				file.WriteString("{\"Updater\":\"cut\",\"Fingerprint\":\"\",\"Ref\":\"0000")
+				r.Count("raw:line=g-truncated-last-line")
+			case ref%2 == 0:
 				file.WriteString("{\"Ref\": 12, \"Kind\": \"vulnerability\"}\n")
-			} else {
+			default:
 				file.WriteString("this is not json\n")
 			}
 			continue
